@@ -40,6 +40,35 @@ theorem Inst.Le.trans {a b c : Inst} (h1 : Inst.Le a b) (h2 : Inst.Le b c) : Ins
       refine ⟨h2.readyDone r1, h2.runCancelled r2, ?_⟩
       rw [h2.logReady r3]; exact r3
 
+theorem inst_default' (s : Sys) (d : IId) (h : s.insts.length ≤ d) : s.inst d = { name := 0, seq := 0 } := by
+  unfold Sys.inst
+  simp [List.getD_eq_getElem?_getD, List.getElem?_eq_none h]
+
+/-- a latch can only be set on an instance that exists -/
+theorem latchB_lt {s : Sys} {c : Cond} {d : IId} (h : latchB s c d = true) : d < s.insts.length := by
+  apply Classical.byContradiction
+  intro hn
+  have hd := inst_default' s d (Nat.le_of_not_lt hn)
+  unfold latchB at h
+  cases c <;> simp [hd] at h
+
+/-- latches are `Inst.Le`-monotone -/
+theorem latchB_le {s s' : Sys} {c : Cond} {d : IId} (l : Inst.Le (s.inst d) (s'.inst d))
+    (h : latchB s c d = true) : latchB s' c d = true := by
+  unfold latchB at h ⊢
+  cases c with
+  | completed => exact l.done h
+  | completedOk => exact l.done h
+  | healthy => exact l.readyDone h
+  | logReady =>
+    simp only [bne_iff_ne, ne_eq] at h ⊢
+    rw [l.logReady h]; exact h
+  | started =>
+    simp only [Bool.or_eq_true] at h ⊢
+    rcases h with h | h
+    · exact Or.inl (l.started h)
+    · exact Or.inr (l.runCancelled h)
+
 /-- What one step by thread `t` (or an external event, with `t` out of range) may do:
     * the instance table only moves forward; new records satisfy `EndedI`;
     * no other thread's record changes, threads are only appended, `t` keeps its kind;
@@ -58,15 +87,18 @@ structure SysLe (t : Tid) (s s' : Sys) : Prop where
   ordered : s'.ordered = s.ordered
   /-- the ghost gate log only grows -/
   gate : ∀ e ∈ s.gate, e ∈ s'.gate
+  /-- a wait recorded as passed was passed on a set latch -/
+  gateNew : ∀ i d c, GateEv.passed i d c ∈ s'.gate → GateEv.passed i d c ∈ s.gate ∨ latchB s' c d = true
   /-- threads created by the step start at `begin` (the slot `t` itself is exempt: an external
       event creates the thread in slot `t`) -/
-  tnew : ∀ u, s.threads.length ≤ u → u < s'.threads.length → (s'.thr u).pc = .begin ∨ u = t
+  tnew : ∀ u, s.threads.length ≤ u → u < s'.threads.length →
+    ((s'.thr u).pc = .begin ∧ ∀ i, (s'.thr u).kind = .proc i → i < s'.insts.length) ∨ u = t
 
 variable {t : Tid}
 
 theorem SysLe.refl (s : Sys) : SysLe t s s :=
   ⟨Nat.le_refl _, fun i _ => Inst.Le.refl _, fun i h1 h2 => absurd h2 (by omega), Nat.le_refl _,
-   fun _ _ _ => rfl, Or.inl rfl, fun h => ⟨h, rfl⟩, rfl, rfl, rfl, fun _ h => h, fun u h1 h2 => absurd h2 (by omega)⟩
+   fun _ _ _ => rfl, Or.inl rfl, fun h => ⟨h, rfl⟩, rfl, rfl, rfl, fun _ h => h, fun _ _ _ h => Or.inl h, fun u h1 h2 => absurd h2 (by omega)⟩
 
 theorem SysLe.trans {a b c : Sys} (h1 : SysLe t a b) (h2 : SysLe t b c) : SysLe t a c where
   len := Nat.le_trans h1.len h2.len
@@ -100,12 +132,19 @@ theorem SysLe.trans {a b c : Sys} (h1 : SysLe t a b) (h2 : SysLe t b c) : SysLe 
   gran := h2.gran.trans h1.gran
   ordered := h2.ordered.trans h1.ordered
   gate := fun e he => h2.gate e (h1.gate e he)
+  gateNew := fun i d cnd he => by
+    rcases h2.gateNew i d cnd he with e | e
+    · rcases h1.gateNew i d cnd e with e1 | e1
+      · exact Or.inl e1
+      · exact Or.inr (latchB_le (h2.old d (latchB_lt e1)) e1)
+    · exact Or.inr e
   tnew := fun u hu hc => by
     by_cases hb : u < b.threads.length
     · rcases h1.tnew u hu hb with e | e
       · by_cases hut : u = t
         · exact Or.inr hut
-        · left; rw [h2.tframe u hb hut]; exact e
+        · left; rw [h2.tframe u hb hut]
+          exact ⟨e.1, fun i hi => Nat.lt_of_lt_of_le (e.2 i hi) h2.len⟩
       · exact Or.inr e
     · exact h2.tnew u (Nat.le_of_not_lt hb) hc
 
@@ -123,7 +162,8 @@ structure Same (s s' : Sys) : Prop where
 theorem SysLe.of_same {s s' : Sys} (h : Same s s') : SysLe t s s' := by
   refine ⟨by rw [h.insts]; exact Nat.le_refl _, fun i _ => ?_, fun i h1 h2 => absurd h2 (by rw [h.insts]; omega),
     by rw [h.threads]; exact Nat.le_refl _, fun u _ _ => ?_, Or.inl ?_, fun hx => ?_, h.cfgs, h.gran, h.ordered,
-    fun e he => by rw [h.gate]; exact he, fun u h1 h2 => absurd h2 (by rw [h.threads]; omega)⟩
+    fun e he => by rw [h.gate]; exact he, fun i d c he => Or.inl (by rw [h.gate] at he; exact he),
+    fun u h1 h2 => absurd h2 (by rw [h.threads]; omega)⟩
   · unfold Sys.inst; rw [h.insts]; exact Inst.Le.refl _
   · unfold Sys.thr; rw [h.threads]
   · unfold Sys.thr; rw [h.threads]
@@ -150,7 +190,7 @@ theorem inst_setInst (s : Sys) (i j : IId) (f : Inst → Inst) (hj : j < s.insts
 theorem setInst_le (s : Sys) (i : IId) (f : Inst → Inst) (hf : ∀ x, Inst.Le x (f x)) :
     SysLe t s (s.setInst i f) := by
   refine ⟨by simp [Sys.setInst], fun j hj => ?_, fun j h1 h2 => absurd h2 (by simp [Sys.setInst]; omega),
-    Nat.le_refl _, fun _ _ _ => rfl, Or.inl rfl, fun h => ⟨h, rfl⟩, rfl, rfl, rfl, fun _ h => h,
+    Nat.le_refl _, fun _ _ _ => rfl, Or.inl rfl, fun h => ⟨h, rfl⟩, rfl, rfl, rfl, fun _ h => h, fun _ _ _ h => Or.inl h,
     fun u h1 h2 => absurd h2 (by simp [Sys.setInst]; omega)⟩
   rw [inst_setInst _ _ _ _ hj]
   split
@@ -160,10 +200,29 @@ theorem setInst_le (s : Sys) (i : IId) (f : Inst → Inst) (hf : ∀ x, Inst.Le 
 theorem setPs_le (s : Sys) (n f) : SysLe t s (s.setPs n f) := SysLe.of_same (by same)
 theorem emit_le (s : Sys) (o) : SysLe t s (s.emit o) := SysLe.of_same (by same)
 
-theorem note_le (s : Sys) (e : GateEv) : SysLe t s (s.note e) :=
+/-- recording a lookup (`found` / `notFound`) -/
+theorem note_le (s : Sys) (e : GateEv) (he : ∀ i d c, e ≠ .passed i d c) : SysLe t s (s.note e) :=
   ⟨Nat.le_refl _, fun i _ => Inst.Le.refl _, fun i h1 h2 => absurd h2 (by simp [Sys.note]; omega), Nat.le_refl _,
    fun _ _ _ => rfl, Or.inl rfl, fun h => ⟨h, rfl⟩, rfl, rfl, rfl, fun x hx => List.mem_cons_of_mem _ hx,
+   fun i d c h => by
+     rcases List.mem_cons.mp h with h | h
+     · exact absurd h.symm (he i d c)
+     · exact Or.inl h,
    fun u h1 h2 => absurd h2 (by simp [Sys.note]; omega)⟩
+
+/-- recording a passed wait: only when the latch is set -/
+theorem notePassed_le (s : Sys) (i d : IId) (c : Cond) : SysLe t s (s.notePassed i d c) := by
+  unfold Sys.notePassed
+  split
+  · rename_i hl
+    exact ⟨Nat.le_refl _, fun i _ => Inst.Le.refl _, fun i h1 h2 => absurd h2 (by simp [Sys.note]; omega), Nat.le_refl _,
+      fun _ _ _ => rfl, Or.inl rfl, fun h => ⟨h, rfl⟩, rfl, rfl, rfl, fun x hx => List.mem_cons_of_mem _ hx,
+      fun i' d' c' h => by
+        rcases List.mem_cons.mp h with h | h
+        · cases h; exact Or.inr hl
+        · exact Or.inl h,
+      fun u h1 h2 => absurd h2 (by simp [Sys.note]; omega)⟩
+  · exact SysLe.refl _
 
 theorem thr_setPc_ne (s : Sys) (t u : Tid) (pc : Pc) (h : u ≠ t) : (s.setPc t pc).thr u = s.thr u := by
   unfold Sys.thr Sys.setPc
@@ -179,19 +238,23 @@ theorem thr_setPc_kind (s : Sys) (t : Tid) (pc : Pc) : ((s.setPc t pc).thr t).ki
 theorem setPc_le (s : Sys) (t pc) : SysLe t s (s.setPc t pc) := by
   refine ⟨Nat.le_refl _, fun i _ => Inst.Le.refl _, fun i h1 h2 => absurd h2 (by simp [Sys.setPc]; omega),
     by simp [Sys.setPc], fun u _ hne => thr_setPc_ne s t u pc hne, Or.inl (thr_setPc_kind s t pc),
-    fun h => ⟨h, rfl⟩, rfl, rfl, rfl, fun _ h => h, fun u h1 h2 => absurd h2 (by simp [Sys.setPc]; omega)⟩
+    fun h => ⟨h, rfl⟩, rfl, rfl, rfl, fun _ h => h, fun _ _ _ h => Or.inl h,
+    fun u h1 h2 => absurd h2 (by simp [Sys.setPc]; omega)⟩
 
-theorem spawn_le (s : Sys) (k) : SysLe t s (s.spawn k) := by
+theorem spawn_le (s : Sys) (k) (hk : ∀ i, k = .proc i → i < s.insts.length) : SysLe t s (s.spawn k) := by
   refine ⟨Nat.le_refl _, fun i _ => Inst.Le.refl _, fun i h1 h2 => absurd h2 (by simp [Sys.spawn]; omega),
-    by simp [Sys.spawn], fun u hu _ => ?_, ?_, fun h => ⟨h, rfl⟩, rfl, rfl, rfl, fun _ h => h, fun u h1 h2 => ?_⟩
+    by simp [Sys.spawn], fun u hu _ => ?_, ?_, fun h => ⟨h, rfl⟩, rfl, rfl, rfl, fun _ h => h, fun _ _ _ h => Or.inl h, fun u h1 h2 => ?_⟩
   · unfold Sys.thr Sys.spawn
     simp [List.getD_eq_getElem?_getD, List.getElem?_append_left hu]
   rotate_left
   · left
     have : u = s.threads.length := by simp [Sys.spawn] at h2; omega
     subst this
-    unfold Sys.thr Sys.spawn
-    simp [List.getD_eq_getElem?_getD]
+    have e : (s.spawn k).thr s.threads.length = { kind := k } := by
+      unfold Sys.thr Sys.spawn
+      simp [List.getD_eq_getElem?_getD]
+    rw [e]
+    exact ⟨rfl, fun i hi => hk i hi⟩
   · by_cases ht : t < s.threads.length
     · left
       unfold Sys.thr Sys.spawn
@@ -247,7 +310,7 @@ theorem recordExit_le (s : Sys) (c) : SysLe t s (recordExit s c) := by
   · rename_i h
     peel (emit_le _ _)
     refine ⟨Nat.le_refl _, fun i _ => Inst.Le.refl _, fun i h1 h2 => absurd h2 (by simp; omega), Nat.le_refl _,
-      fun _ _ _ => rfl, Or.inl rfl, fun hx => absurd hx h, rfl, rfl, rfl, fun _ h => h,
+      fun _ _ _ => rfl, Or.inl rfl, fun hx => absurd hx h, rfl, rfl, rfl, fun _ h => h, fun _ _ _ h => Or.inl h,
       fun u h1 h2 => absurd h2 (by simp; omega)⟩
 
 theorem onProcessEnd_le (s : Sys) (i st) : SysLe t s (onProcessEnd s i st) := by
@@ -271,7 +334,9 @@ theorem decideRestart_le (s : Sys) (i) : SysLe t s (decideRestart s i).2 := setI
 
 theorem append_le (s : Sys) (x : Inst) (hx : EndedI x) : SysLe t s { s with insts := s.insts ++ [x] } := by
   refine ⟨by simp, fun j hj => ?_, fun j h1 h2 => ?_, Nat.le_refl _, fun _ _ _ => rfl, Or.inl rfl,
-    fun h => ⟨h, rfl⟩, rfl, rfl, rfl, fun _ h => h, fun u h1 h2 => absurd h2 (by simp; omega)⟩
+    fun h => ⟨h, rfl⟩, rfl, rfl, rfl, fun _ h => h, fun i d c h => ?_, fun u h1 h2 => absurd h2 (by simp; omega)⟩
+  rotate_left 2
+  · exact Or.inl h
   · have : ({ s with insts := s.insts ++ [x] } : Sys).inst j = s.inst j := by
       unfold Sys.inst; simp [List.getD_eq_getElem?_getD, List.getElem?_append_left hj]
     rw [this]; exact Inst.Le.refl _
@@ -284,7 +349,12 @@ theorem append_le (s : Sys) (x : Inst) (hx : EndedI x) : SysLe t s { s with inst
 theorem spawnProc_le (s : Sys) (n) : SysLe t s (spawnProc s n) := by
   unfold spawnProc newInst
   simp only
-  peel (spawn_le _ _)
+  peel (spawn_le _ _ (by
+    intro i h
+    cases h
+    have e : ∀ (st : Status) (s0 : Sys) (j : IId), (setState s0 j st).insts = s0.insts := by
+      intro st s0 j; unfold setState; cases st <;> rfl
+    simp [e]))
   have h1 : SysLe t s ({ s with insts := s.insts ++ [{ name := n, seq := (s.insts.filter (·.name = n)).length + 1 }] } : Sys) :=
     append_le s _ (by intro h; simp at h)
   exact (h1.then (setState_le _ _ _)).congr (by same)
@@ -315,8 +385,8 @@ theorem afterDeps_le (s : Sys) (t) : SysLe t s (afterDeps s t) := setPc_le _ _ _
 
 theorem lookupRunning_le (s : Sys) (t i k c r) : SysLe t s (lookupRunning s t i k c r) := by
   unfold lookupRunning; split
-  · exact (emit_le _ _).then (setPc_le _ _ _)
-  · exact ((note_le _ _).then (emit_le _ _)).then (setPc_le _ _ _)
+  · exact ((note_le _ _ (by intro _ _ _ h; cases h)).then (emit_le _ _)).then (setPc_le _ _ _)
+  · exact ((note_le _ _ (by intro _ _ _ h; cases h)).then (emit_le _ _)).then (setPc_le _ _ _)
 
 theorem depStep_le (s : Sys) (t i h r) : SysLe t s (depStep s t i h r) := by
   unfold depStep
@@ -324,7 +394,7 @@ theorem depStep_le (s : Sys) (t i h r) : SysLe t s (depStep s t i h r) := by
   · exact afterDeps_le _ _
   · simp only
     split
-    · exact ((emit_le _ _).then (emit_le _ _)).then (setPc_le _ _ _)
+    · exact (((emit_le _ _).then (note_le _ _ (by intro _ _ _ h; cases h))).then (emit_le _ _)).then (setPc_le _ _ _)
     · split
       · exact (emit_le _ _).then (lookupRunning_le _ _ _ _ _ _)
       · exact (emit_le _ _).then (setPc_le _ _ _)
@@ -349,7 +419,7 @@ theorem doLaunch_le (s : Sys) (t i) : SysLe t s (doLaunch s t i) := by
         (setState_le s i .running).then (emit_le _ _)
       exact hE.congr (by same)
     split
-    · exact key.trans (spawn_le _ _)
+    · exact key.trans (spawn_le _ _ (by intro i h; cases h))
     · exact key
 
 theorem foldl_le {α : Type} (f : Sys → α → Sys) (hf : ∀ s a, SysLe t s (f s a)) (l : List α) (s : Sys) :
@@ -387,7 +457,7 @@ theorem stopReturn_le (s : Sys) (t k) : SysLe t s (stopReturn s t k) := by
     all_goals exact setPc_le _ _ _
   · exact setPc_le _ _ _
   · peel (sdSeqNext_le _ _ _ _)
-    upd (spawn_le _ _)
+    upd (spawn_le _ _ (by intro i h; cases h))
   · exact setPc_le _ _ _
   · exact setPc_le _ _ _
 
@@ -419,14 +489,14 @@ theorem armDepLookup_le (s : Sys) (t d c r) : SysLe t s (armDepLookup s t d c r)
 theorem armWaitDone_le (s : Sys) (t i d ok r) : SysLe t s (armWaitDone s t i d ok r) := by
   unfold armWaitDone; split
   · exact doSkip_le _ _ _
-  · exact (note_le _ _).then (setPc_le _ _ _)
+  · exact (notePassed_le _ _ _ _).then (setPc_le _ _ _)
 theorem armWaitReady_le (s : Sys) (t i d r) : SysLe t s (armWaitReady s t i d r) := by
   unfold armWaitReady; split
-  · exact (note_le _ _).then (setPc_le _ _ _)
+  · exact (notePassed_le _ _ _ _).then (setPc_le _ _ _)
   · exact doSkip_le _ _ _
 theorem armWaitLogReady_le (s : Sys) (t i d r) : SysLe t s (armWaitLogReady s t i d r) := by
   unfold armWaitLogReady; split
-  · exact (note_le _ _).then (setPc_le _ _ _)
+  · exact (notePassed_le _ _ _ _).then (setPc_le _ _ _)
   · exact doSkip_le _ _ _
 theorem armProcSkipped_le (s : Sys) (t i) : SysLe t s (armProcSkipped s t i) := by
   unfold armProcSkipped; split
@@ -471,7 +541,7 @@ theorem stepProc_le (s : Sys) (t i h pc) : SysLe t s (stepProc s t i h pc) := by
     first
     | exact SysLe.refl _
     | exact setPc_le _ _ _
-    | exact (note_le _ _).then (setPc_le _ _ _)
+    | exact (notePassed_le _ _ _ _).then (setPc_le _ _ _)
     | exact depStep_le _ _ _ _ _
     | exact lookupRunning_le _ _ _ _ _ _
     | exact armDepLookup_le _ _ _ _ _
@@ -535,7 +605,7 @@ theorem armSdPrepared_le (s : Sys) (t o k) : SysLe t s (armSdPrepared s t o k) :
   · peel (setPc_le _ _ _)
     apply foldl_le
     intro s i
-    exact SysLe.congr_left (spawn_le _ _) (by same)
+    exact SysLe.congr_left (spawn_le _ _ (by intro i h; cases h)) (by same)
   · exact sdSeqNext_le _ _ _ _
 
 theorem armStopperBegin_le (s : Sys) (t i) : SysLe t s (armStopperBegin s t i) := by
@@ -544,7 +614,7 @@ theorem armStopperBegin_le (s : Sys) (t i) : SysLe t s (armStopperBegin s t i) :
   peel (setPc_le _ _ _)
   apply foldl_le
   intro s j
-  exact SysLe.congr_left (spawn_le _ _) (by same)
+  exact SysLe.congr_left (spawn_le _ _ (by intro i h; cases h)) (by same)
 
 theorem stepStopper_le (s : Sys) (t i pc) : SysLe t s (stepStopper s t i pc) := by
   cases pc <;> simp only [stepStopper] <;>
@@ -667,13 +737,13 @@ theorem step_le (s : Sys) (c : Choice) (h : Hints) : SysLe (c.tid s) s (step s c
   | probeFatal id n =>
     simp only
     split
-    · upd (spawn_le _ _)
+    · upd (spawn_le _ _ (by intro i h; cases h))
     · done_le
   | killTimeout n =>
     simp only
     split
     · upd (setInst_le _ _ _ (by inst_le))
     · done_le
-  | call id op => upd (spawn_le _ _)
+  | call id op => upd (spawn_le _ _ (by intro i h; cases h))
 
 end PC.Sup
